@@ -59,9 +59,10 @@ theorem Codec.Printer.lawfulOn {C : Codec K} {q qd : K → K} (P : C.Printer q q
 def quantObs (q : K → K) (o : Obs K) : Obs K :=
   { o with val := q o.val, stdev := q o.stdev, fromDh := q o.fromDh, toDh := q o.toDh, fsDh := q o.fsDh }
 
-/-- a height difference given with its distance gets its standard deviation recomputed from the printed values -/
+/-- a height difference: value, distance and standard deviation as printed (since 9f04c51 the standard deviation is always
+    written; before, one given with its distance got it recomputed from the printed distance) -/
 def quantDh (C : Codec K) (q : K → K) (s0 : K) (h : HDiff K) : HDiff K :=
-  { h with val := q h.val, dist := q h.dist, stdev := if C.pos h.dist then C.sdDist (q s0) (q h.dist) else q h.stdev }
+  { h with val := q h.val, dist := q h.dist, stdev := q h.stdev }
 
 def quantCov (q : K → K) (c : Cov K) : Cov K := { c with data := c.data.map q }
 def quantPoint (q : K → K) (p : Point K) : Point K := { p with xy := p.xy.map (fun v => (q v.1, q v.2)), z := p.z.map q }
@@ -168,7 +169,7 @@ theorem exportObsU_quant (P : C.Printer q qd) (gons : Bool) (cf : String) (o : O
       P.toSec_fromSec, visStdevScaled, if_true]
 
 theorem exportDh_quant (P : C.Printer q qd) (s0 : K) (h : HDiff K) :
-    exportDh C.toNumFmt true C.pos (quantDh C q s0 h) = exportDh C.toNumFmt true C.pos h := by
+    exportDh C.toNumFmt true C.pos dhStdevAlways (quantDh C q s0 h) = exportDh C.toNumFmt true C.pos dhStdevAlways h := by
   cases hp : C.pos h.dist <;> simp [exportDh, quantDh, P.fmt_q, P.pos_q, hp]
 
 theorem exportPoint_quant (P : C.Printer q qd) (ys : Bool) (p : Point K) :
